@@ -3,6 +3,7 @@
 package c08
 
 import (
+	"encoding/json"
 	"verif/internal/drive"
 	"verif/internal/ev"
 	"verif/internal/gen"
@@ -21,6 +22,8 @@ var Schemas = []string{
 	`{"properties":{"a":{"type":"integer"}}}`, `{"properties":{"a":{"const":1}},"required":["a"]}`, `{"patternProperties":{"^a":{"type":"integer"}}}`, `{"additionalProperties":false,"properties":{"a":true}}`, `{"additionalProperties":{"type":"integer"}}`, `{"propertyNames":{"maxLength":1}}`, `{"required":["a"]}`, `{"required":["a","b"]}`, `{"minProperties":1}`, `{"maxProperties":1}`, `{"dependentRequired":{"a":["b"]}}`, `{"dependentSchemas":{"a":{"required":["b"]}}}`, `{"unevaluatedProperties":false,"properties":{"a":true}}`, `{"properties":{"a":{"properties":{"b":{"type":"integer"}}}}}`, `{"properties":{"a":{"items":{"type":"integer"}}}}`,
 	`{"enum":["12","1","1.5"]}`, `{"const":"12"}`, `{"not":{"enum":["1","a"]}}`, `{"items":{"enum":["1"]}}`, `{"properties":{"a":{"enum":["1","1.5"]}}}`, `{"const":{"a":null}}`, `{"enum":[[null],[1,2]]}`,
 	`{"$schema":"http://json-schema.org/draft-07/schema#","items":[{"type":"integer"}],"additionalItems":false}`, `{"$schema":"http://json-schema.org/draft-07/schema#","dependencies":{"a":["b"],"b":{"minProperties":2}}}`, `{"$schema":"http://json-schema.org/draft-07/schema#","items":[{"const":1}],"additionalItems":{"type":"string"}}`,
+	// member names that read as numbers (a key type such as json.Number must still be a string)
+	`{"properties":{"1":{"type":"integer"}},"required":["1"]}`, `{"const":{"1":1}}`, `{"enum":[{"1.0":true},{"12":1,"1":2}]}`, `{"propertyNames":{"type":"string"}}`, `{"propertyNames":{"pattern":"^[0-9]+$"}}`, `{"propertyNames":{"const":"1"}}`, `{"patternProperties":{"^1":{"type":"integer"}},"additionalProperties":false}`, `{"items":{"uniqueItems":true}}`,
 	`{"allOf":[{"type":"integer"},{"minimum":1}]}`, `{"anyOf":[{"type":"string"},{"minimum":256}]}`, `{"not":{"type":"integer"}}`, `{"if":{"type":"integer"},"then":{"minimum":1},"else":{"type":"string"}}`, `{"oneOf":[{"type":"integer"},{"minimum":1.5}]}`,
 }
 
@@ -29,6 +32,7 @@ var Values = []string{
 	`null`, `true`, `false`, `0`, `1`, `-1`, `1.5`, `0.5`, `2`, `4`, `6`, `8`, `255`, `256`, `9007199254740992`, `9223372036854775808`, `-9223372036854775808`, `18446744073709551616`,
 	`""`, `"a"`, `"ab"`, "\"é\"", `"12"`, `"1"`, `"1.5"`, `12`, `["1"]`, `{"a":"1"}`,
 	`[]`, `[1]`, `[1,2]`, `[1,"a"]`, `[1,1]`, `[[1]]`, `[1,1.5]`, `[8,6]`, `[4]`, `["a","a"]`, `[null]`, `[{"a":1}]`, `[256,256]`, `[65536,65536]`, `[9223372036854775808,9223372036854775808]`, `[-9223372036854775808,-9223372036854775808]`, `[1.5,1.5]`, `[0,0]`, `[{"a":1},{"a":1}]`, `[[256],[256]]`, `[[1,2],[1,3]]`, `[[1,2],[1,2]]`, `[null,null]`, `[null,1]`,
+	`{"1":1}`, `[{"1":1},{"1":1}]`, `[{"1":true},{"1.0":true}]`, `{"12":1,"1":2}`, `{"1.0":true}`, `[[{"1":1},{"1":1}]]`,
 	`{}`, `{"a":1}`, `{"a":1,"b":2}`, `{"a":"x"}`, `{"a":[1]}`, `{"a":{"b":1}}`, `{"ab":1}`, `{"b":1}`, `{"a":null}`, `{"a":1.5}`,
 }
 
@@ -56,7 +60,7 @@ func Run(r *ev.Run) {
 	if thorough {
 		dev = 2
 	}
-	r.Rule("every schema of a 67-schema set covering each instance-inspecting keyword group x every value of a 40-value pool x every Go representation of G-rep (numeric kind per leaf, container typing per node, pointer/interface wrapping, named types, json.Number spellings; full product for values with <=3 nodes, otherwise <=1 (thorough 2) deviating nodes plus uniform stylings) is validated; the verdict must equal the verdict for the canonical encoding/json decoding of the same document. Non-trivial = representation differs from the canonical decoding")
+	r.Rule("every schema of a 67-schema set covering each instance-inspecting keyword group x every value of a 40-value pool x every Go representation of G-rep (numeric kind per leaf, container typing per node, pointer/interface wrapping, named types, json.Number spellings; full product for values with <=3 nodes, otherwise <=1 (thorough 2) deviating nodes plus uniform stylings) is validated; the verdict must equal the verdict for the canonical encoding/json decoding of the same document. plus 17 hand-built instances whose equal parts are carried by different Go types at three or more nodes (byte slices next to []any / []int / Go arrays, typed next to untyped maps) x 9 schemas that compare parts of the instance. Non-trivial = representation differs from the canonical decoding")
 	r.Assume("nil slices, nil maps and structs are outside the domain; float32 and json.Number representations are generated only when they carry the value exactly",
 		"the canonical verdict itself is C01's business; R1 disagreements with it are counted, not reported here")
 	vals := gen.Vals(Values...)
@@ -157,4 +161,56 @@ func runBig(r *ev.Run) {
 	r.Eval(n)
 	r.NontrivialN(n)
 	r.Set("exact_big_integer_cases", n)
+	mixedCarriers(r)
+}
+
+// mixedCarriers: one instance whose EQUAL parts are carried by different Go types (three or more
+// deviating nodes, which the <=1/<=2-deviation product does not reach): byte slices next to []any /
+// []int / Go arrays of the same numbers, typed next to untyped maps. Every schema that compares
+// parts of one instance with each other or with schema values must judge them by JSON value.
+func mixedCarriers(r *ev.Run) {
+	schemas := []string{`{"uniqueItems":true}`, `{"items":{"uniqueItems":true}}`, `{"properties":{"a":{"uniqueItems":true}}}`, `{"enum":[[[1,2],[1,2]],[[1,2],[1,3]],[{"a":[1]},{"a":[1]}]]}`, `{"items":{"const":[1,2]}}`, `{"contains":{"const":[1,2]},"minContains":2}`,
+		`{"items":{"enum":[[1,3],{"a":[1]}]}}`, `{"not":{"uniqueItems":true}}`, `{"unevaluatedItems":false,"prefixItems":[{"const":[1,2]}],"contains":{"maxItems":2}}`}
+	type MyBytes []byte
+	type mc struct {
+		x    any
+		text string
+	}
+	insts := []mc{
+		{[]any{[]uint8{1, 2}, []any{1.0, 2.0}}, `[[1,2],[1,2]]`}, {[]any{[]any{1.0, 2.0}, []byte{1, 2}}, `[[1,2],[1,2]]`}, {[]any{[]byte{1, 2}, []int{1, 2}}, `[[1,2],[1,2]]`}, {[]any{[2]uint8{1, 2}, []uint8{1, 2}}, `[[1,2],[1,2]]`},
+		{[]any{MyBytes{1, 2}, []any{json.Number("1"), json.Number("2.0")}}, `[[1,2],[1,2]]`}, {[][]uint8{{1, 2}, {1, 2}}, `[[1,2],[1,2]]`}, {[]any{[]uint8{1, 2}, []any{1.0, 3.0}}, `[[1,2],[1,3]]`}, {[]any{[]uint8{1, 3}, []uint8{1, 2}}, `[[1,3],[1,2]]`},
+		{[]any{[]uint8{}, []any{}}, `[[],[]]`}, {[]any{[]uint8{1}, []any{1.0}, []int8{1}}, `[[1],[1],[1]]`}, {[]any{map[string]any{"a": []uint8{1}}, map[string]any{"a": []any{1.0}}}, `[{"a":[1]},{"a":[1]}]`},
+		{[]any{map[string][]uint8{"a": {1}}, map[gen.MyKey]any{"a": [1]int{1}}}, `[{"a":[1]},{"a":[1]}]`}, {map[string]any{"a": []any{[]uint8{1, 2}, []int16{1, 2}}}, `{"a":[[1,2],[1,2]]}`}, {[]any{[]any{[]uint8{1, 2}, []any{1.0, 2.0}}}, `[[[1,2],[1,2]]]`},
+		{[]any{[]uint16{1, 2}, []float32{1, 2}, []uint8{1, 2}}, `[[1,2],[1,2],[1,2]]`}, {[]any{[]uint8{255, 0}, []any{255.0, 0.0}}, `[[255,0],[255,0]]`}, {[]any{&[]uint8{1, 2}, []any{1.0, 2.0}}, `[[1,2],[1,2]]`},
+	}
+	r.Set("mixed_carrier_instances", len(insts))
+	n := 0
+	for _, st := range schemas {
+		rs, stage, err := drive.Compile(st, nil)
+		if stage != "" {
+			r.Fail(st, map[string]any{"class": stage, "error": err.Error()})
+			continue
+		}
+		for _, in := range insts {
+			x, v := in.x, ref.MustParse(in.text)
+			if c, ok := ref.CanonGo(x); !ok || c != v.Canon() {
+				r.Fail(gen.Describe(x), map[string]any{"class": "harness", "error": "the Go value does not carry " + in.text})
+				continue
+			}
+			key := st + " ⊢ " + gen.Describe(x)
+			if r.OnlyKey != "" && r.OnlyKey != key {
+				continue
+			}
+			want, p0 := drive.Verdict(rs, v.Plain())
+			got, p := drive.Verdict(rs, x)
+			n++
+			if p != "" || p0 != "" {
+				r.Fail(key, map[string]any{"class": "panic", "panic": p + p0})
+			} else if got != want {
+				r.Fail(key, map[string]any{"class": "representation-dependent verdict", "json": v.JSON(), "canonical_valid": want, "valid": got})
+			}
+		}
+	}
+	r.Eval(n)
+	r.NontrivialN(n)
 }
